@@ -38,6 +38,9 @@ def main():
             results.append(verify.verify_refinement(I, c, fi, bc, bfi))
         for res in results:
             print("== %s paths=%d obligations=%d outcomes=%s %.1fs" % (res.key, res.paths, len(res.obligations), res.outcomes, res.seconds))
+            ends = {k: v for k, v in getattr(res, "path_ends", {}).items() if "loop iteration done" not in k}
+            if ends:
+                print("   abandoned paths:", ends)
             if res.error:
                 print("   ERROR:", res.error)
                 bad += 1
